@@ -8,6 +8,7 @@ import TmVerif.Driver.BytesCmd
 import TmVerif.Driver.EscapeCmd
 import TmVerif.Driver.ListingCmd
 import TmVerif.Driver.LoadCmd
+import TmVerif.Driver.LoopEnvCmd
 
 open TmVerif TmVerif.Proto
 
@@ -26,6 +27,9 @@ def handleLine (st : DriverState) (line : String) : DriverState × String :=
     | some r => (st, r)
     | none =>
     match LoopCmd.handle st.layout toks with
+    | some r => (st, r)
+    | none =>
+    match LoopEnvCmd.handle st.layout toks with
     | some r => (st, r)
     | none =>
     match BytesCmd.handle toks with
